@@ -23,3 +23,11 @@ func (rm *ResourceManagement) VerifQuotaDump(now time.Time) string {
 	}
 	return strings.Join(out, " ")
 }
+
+func (rm *ResourceManagement) VerifObserveQuotas() int {
+	n := 0
+	for _, q := range rm.quotas.GetAll() {
+		n += quotaResource.VerifObserve(q)
+	}
+	return n
+}
